@@ -69,7 +69,7 @@ func chanAttribution(c *core.Ctx, fn *ssa.Function) []string {
 		props = append(props, "C19")
 	case strings.HasSuffix(pkg, "/handler/sqlite"):
 		props = append(props, "C16")
-	case fileOf(c, fn) == "relay.go":
+	case ownerTypes(c, fn)["Relay"]:
 		props = append(props, "C12")
 	case strings.Contains(name, "mergeHandlerSession") || strings.Contains(name, "MergeHandler"):
 		props = append(props, "C08", "C09")
